@@ -265,11 +265,12 @@ func runC07(e *Env) {
 	explore("histories-len3-dev3-repeated-values", 3, 3)
 	c07Constant = false
 	if e.Thorough {
+		explore("histories-len3-dev6", 3, 6)
+		explore("histories-len4-dev4", 4, 4)
+		explore("histories-len5-dev2", 5, 2)
+	} else {
 		explore("histories-len3-dev4", 3, 4)
 		explore("histories-len4-dev3", 4, 3)
-	} else {
-		explore("histories-len3-dev3", 3, 3)
-		explore("histories-len4-dev2", 4, 2)
 	}
 	e.R.Sample(map[string]any{"history": "C{bpm=120,txt} R{key=F#m,vel=pp} C{} C", "oracle": "tick 0: tempo 120, 4/4, C signature, text; tick 960: F#m signature (3 sharps, minor); tick 1920: chord at pp velocity"})
 
@@ -317,7 +318,7 @@ func runC07(e *Env) {
 		c07Eval(e, m, &c, true)
 		e.R.Trace(1)
 		e.R.NonTrivial("sweep" + fmt.Sprint(i))
-		if e.Thorough || i%4 == 0 {
+		if true {
 			cc := c
 			cc.Path = "cli"
 			c07Eval(e, m, &cc, true)
@@ -385,7 +386,7 @@ func runC07(e *Env) {
 	}
 	step := 1
 	if !e.Thorough {
-		step = 4 // quick: every 4th document for each flag subset through the CLI, all in-process
+		step = 2 // quick: every 4th document for each flag subset through the CLI, all in-process
 	}
 	mc.ParFor(len(fcases), func(i int) {
 		c := fcases[i]
